@@ -146,6 +146,9 @@ func c14entries() []c14entry {
 		{"facade slog.(*Entry).Info over the native API", "native", func(l slog.Logger, _ *stdslog.Logger, _ *stdlog.Logger, c context.Context) []site { s := here(); (&fslog.Entry{L: l}).Info(cm, "a", 1); return s }, 1},
 		{"facade slog.(*Entry).WarnContext (noinline) over the native API", "native", func(l slog.Logger, _ *stdslog.Logger, _ *stdlog.Logger, c context.Context) []site { s := here(); (&fslog.Entry{L: l}).WarnContext(c, cm, "a", 1); return s }, 1},
 		{"facade slog.(*Entry).Error->logContext over the native API", "native", func(l slog.Logger, _ *stdslog.Logger, _ *stdlog.Logger, c context.Context) []site { s := here(); (&fslog.Entry{L: l}).Error(c, cm, "a", 1); return s }, 2},
+		{"Errorf(%w)", "native", func(l slog.Logger, _ *stdslog.Logger, _ *stdlog.Logger, c context.Context) []site { s := here(); _ = l.Errorf("%s: %w", cm, stackErr); return s }, 0},
+		{"Warnf(%w %v %d)", "native", func(l slog.Logger, _ *stdslog.Logger, _ *stdlog.Logger, c context.Context) []site { s := here(); _ = l.Warnf("%s: %w %v %d %%", cm, stackErr, nil, 7); return s }, 0},
+		{"Infof(no verbs)", "native", func(l slog.Logger, _ *stdslog.Logger, _ *stdlog.Logger, c context.Context) []site { s := here(); _ = l.Infof(cm); return s }, 0},
 		{"log.Output", "bridge", func(_ slog.Logger, _ *stdslog.Logger, bl *stdlog.Logger, c context.Context) []site { s := here(); _ = bl.Output(1, cm); return s }, 0},
 	}
 }
